@@ -3,6 +3,8 @@ import GeosModel.Proofs.WKB.Canon
 namespace GeosModel.WKB
 open GeosModel
 
+variable {arc : ArcOracle}
+
 /-- how the Z/M flags of a subtree (`z m`) relate to those of its round-tripped image (`z' m'`)
 at output dimension `d` -/
 def Rel (d : Nat) (z m z' m' : Bool) : Prop :=
@@ -100,7 +102,7 @@ theorem anySeqs_canonSec_M (z m : Bool) (gs : List G) (hk : gs.all isSimpleCurve
     cases m <;> simp
 
 mutual
-  theorem flags_canon (d : Nat) : ∀ (g : G), WFG g = true →
+  theorem flags_canon (d : Nat) : ∀ (g : G), WFG arc g = true →
       Rel d (anySeq (·.hasZ) g) (anySeq (·.hasM) g) (anySeq (·.hasZ) (canonG d g)) (anySeq (·.hasM) (canonG d g))
     | .point s, _ => by
       simp only [canonG, anySeq_pointOfSeq_Z, anySeq_pointOfSeq_M, anySeq]; exact Rel_base d _ _
@@ -143,7 +145,7 @@ mutual
     | .multiSurface gs, hwf => by
       simp only [WFG, Bool.and_eq_true] at hwf
       simp only [canonG, anySeq]; exact flags_canons d gs hwf.2
-  theorem flags_canons (d : Nat) : ∀ (gs : List G), WFGs gs = true →
+  theorem flags_canons (d : Nat) : ∀ (gs : List G), WFGs arc gs = true →
       Rel d (anySeqs (·.hasZ) gs) (anySeqs (·.hasM) gs) (anySeqs (·.hasZ) (canonGs d gs)) (anySeqs (·.hasM) (canonGs d gs))
     | [], _ => by simp only [canonGs, anySeqs]; exact Rel_nil d
     | g :: gs, hwf => by
@@ -189,12 +191,12 @@ theorem canonGs_length (d : Nat) (gs : List G) : (canonGs d gs).length = gs.leng
   | nil => rfl
   | cons g gs ih => simp [canonGs, ih]
 
-theorem collHeader_canon (c : Cfg) (e : Int) (code : Nat) (gs : List G) (hwf : WFGs gs = true) :
+theorem collHeader_canon (c : Cfg) (e : Int) (code : Nat) (gs : List G) (hwf : WFGs arc gs = true) :
     collHeader c e code (canonGs c.dims gs) = collHeader c e code gs := by
   simp only [collHeader, Rel_outOrd c.dims (flags_canons c.dims gs hwf), canonGs_length]
 
 mutual
-  theorem writeG_canon (c : Cfg) : ∀ (g : G), WFG g = true → NanPtCanon g = true → ∀ (e : Int),
+  theorem writeG_canon (c : Cfg) : ∀ (g : G), WFG arc g = true → NanPtCanon g = true → ∀ (e : Int),
       writeG c e (canonG c.dims g) = writeG c e g
     | .point s, hwf, hn, e => by
       simp only [WFG, decide_eq_true_eq] at hwf
@@ -293,7 +295,7 @@ mutual
     | .multiSurface gs, hwf, hn, e => by
       simp only [WFG, Bool.and_eq_true] at hwf; simp only [NanPtCanon] at hn
       simp only [canonG, writeG, collHeader_canon c e _ gs hwf.2, writeGs_canon c gs hwf.2 hn]
-  theorem writeGs_canon (c : Cfg) : ∀ (gs : List G), WFGs gs = true → NanPtCanonL gs = true →
+  theorem writeGs_canon (c : Cfg) : ∀ (gs : List G), WFGs arc gs = true → NanPtCanonL gs = true →
       writeGs c (canonGs c.dims gs) = writeGs c gs
     | [], _, _ => rfl
     | g :: gs, hwf, hn => by
